@@ -418,16 +418,33 @@ class C20(CompSpec):
     )
     cnt = {"quick": {"events": 80, "stats": 500, "tallies": 120}, "thorough": {"events": 400, "stats": 2500, "tallies": 700}}
 
+    zygote = True
+
     def tasks(self, tier, seed):
+        from checks_sim import sim_task
+        from sim import scenario
+
         c = self.cnt[tier]
         out = []
         for part in ("events", "stats", "tallies"):
             out += [{"fn": "comp.c20:chunk", "args": {"part": part, "count": c[part], "seed": sub_seed(seed, k, "C20" + part)}} for k in range(14)]
+        # the events and tallies that real JADE processes write during whole submissions (login + compute nodes appending to the
+        # shared submit_jobs_events.log and to their own files): checked by the same clauses at the end of each simulation
+        for k in range({"quick": 40, "thorough": 600}[tier]):
+            s = sub_seed(seed, k, "C20sim")
+            rng = random.Random(s)
+            scen = scenario.normalize(scenario.gen_scenario(rng, max_jobs=8))
+            scen["check_events"] = True
+            scen["user"] = {"try_submit": rng.choice([0, 2]), "show_status": 0}
+            out.append(sim_task(scen, s, len(out)))
         return out
 
     def counters(self, tasks, results):
         ok = [r for r in results if not r.get("error")]
         out = {"cases_by_part": {}}
+        out["simulated_submissions_checked"] = sum(1 for r in ok if r.get("events_checked"))
+        out["events_written_by_real_jade_processes_checked"] = sum(r.get("events_checked") or 0 for r in ok)
+        ok = [r for r in ok if "part" in r]
         for r in ok:
             out["cases_by_part"][r["part"]] = out["cases_by_part"].get(r["part"], 0) + r["cases"]
             for k, v in (r.get("stats") or {}).items():
